@@ -557,6 +557,13 @@ func evaluate(ex *xpath.Expr, nav xpath.NodeNavigator) (o Outcome, it *xpath.Nod
 	return valueOutcome(v), nil
 }
 
+// useNS is set per run (Cfg.NS): every Compile of the run goes through
+// CompileWithNS with nsMap, so name tests with a prefix match by namespace URL.
+var (
+	useNS bool
+	nsMap = map[string]string{"x": "urn:x", "y": "urn:y"}
+)
+
 func compile(text string) (ex *xpath.Expr, o Outcome) {
 	defer func() {
 		if p := recover(); p != nil {
@@ -564,7 +571,12 @@ func compile(text string) (ex *xpath.Expr, o Outcome) {
 			ex, o = nil, Outcome{Kind: k, V: "compile: " + v}
 		}
 	}()
-	ex, err := xpath.Compile(text)
+	var err error
+	if useNS {
+		ex, err = xpath.CompileWithNS(text, nsMap)
+	} else {
+		ex, err = xpath.Compile(text)
+	}
 	if err != nil {
 		var ab *Abort
 		if asAbort(err, &ab) {
